@@ -30,8 +30,13 @@ Definition len_field_fn (f : field) (v : value) : N :=
   | CoCustom _ => cust_len v
   end.
 
-(* cbor_len.rs:171-214: `#len.cbor_len()` with len = the number of declared (non-skipped) fields, then one
-   summand per field *)
+(* cbor_len.rs:171-227: the header from the number of entries the encoder writes
+   (`(0usize + usize::from(!is_nil(f0)) + …).cbor_len()`), then one summand per field *)
+Fixpoint present (l : list pfield) (vs : list value) : N :=
+  match l with
+  | [] => 0
+  | pf :: r => (if fld_is_nil (pf_fld pf) (pf_val vs pf) then 0 else 1) + present r vs
+  end.
 Fixpoint len_map_steps (l : list pfield) (vs : list value) : N :=
   match l with
   | [] => 0
@@ -40,19 +45,20 @@ Fixpoint len_map_steps (l : list pfield) (vs : list value) : N :=
        else len_u32 (pf_idx pf) + len_tag_opt (f_tag (pf_fld pf)) + len_field_fn (pf_fld pf) (pf_val vs pf))
       + len_map_steps r vs
   end.
-Definition len_as_map (l : list pfield) (vs : list value) : N := len_u64 (len l) + len_map_steps l vs.
+Definition len_as_map (l : list pfield) (vs : list value) : N := len_u64 (present l vs) + len_map_steps l vs.
 
-(* cbor_len.rs:215-259: the running counters __num777 / __len777 *)
-Fixpoint len_array_steps (l : list pfield) (vs : list value) (num ln : N) : N * N :=
+(* cbor_len.rs:228-281: the running counters __num777 / __len777 and __pend777, the tags of the nil fields
+   since the last non-nil one (a nil field below the highest present index is written as `tag null`) *)
+Fixpoint len_array_steps (l : list pfield) (vs : list value) (num ln pend : N) : N * N :=
   match l with
   | [] => (num, ln)
   | pf :: r =>
-      if fld_is_nil (pf_fld pf) (pf_val vs pf) then len_array_steps r vs num ln
+      if fld_is_nil (pf_fld pf) (pf_val vs pf) then len_array_steps r vs num ln (pend + len_tag_opt (f_tag (pf_fld pf)))
       else len_array_steps r vs (pf_idx pf + 1)
-             (ln + ((pf_idx pf - num) + len_tag_opt (f_tag (pf_fld pf)) + len_field_fn (pf_fld pf) (pf_val vs pf)))
+             (ln + ((pf_idx pf - num) + pend + len_tag_opt (f_tag (pf_fld pf)) + len_field_fn (pf_fld pf) (pf_val vs pf))) 0
   end.
 Definition len_as_array (l : list pfield) (vs : list value) : N :=
-  let r := len_array_steps l vs 0 0 in len_u64 (fst r) + snd r.
+  let r := len_array_steps l vs 0 0 0 in len_u64 (fst r) + snd r.
 
 Definition len_fields (e : encoding) (fs : list field) (vs : list value) : N :=
   match e with
